@@ -1,13 +1,15 @@
 #!/bin/bash
-# usage: seedrun.sh <patch.diff> <prop> [<prop> ...]   apply a seeded change to /repo, run the quick checks, always revert.
+# usage: seedrun.sh <patch.diff> <prop> [<prop> ...]
+# Apply a seeded change to a SCRATCH copy of /repo's HEAD (never to /repo itself), run the quick checks against it with separate
+# build / replay / evidence directories, remove everything afterwards.
 set -u
-P=$1; shift
+P=$(readlink -f "$1"); shift
 cd /verif
-# evidence and replays of a seeded run must not overwrite the committed evidence of the unchanged tree
-export VERIF_EVID=$(mktemp -d /tmp/st-verif-seedrun.XXXXXX)
-git -C /repo diff --quiet || { echo "/repo is dirty; refusing"; exit 2; }
-git -C /repo apply "$P" || { echo "patch does not apply"; exit 2; }
-trap 'git -C /repo checkout -- . ; rm -rf $VERIF_EVID' EXIT
+W=$(mktemp -d /tmp/st-verif-seedrun.XXXXXX)
+trap 'git -C /repo worktree remove --force $W/repo 2>/dev/null; rm -rf $W' EXIT
+git -C /repo worktree add -q --detach $W/repo HEAD || exit 2
+git -C $W/repo apply "$P" || { echo "patch does not apply"; exit 2; }
+export VERIF_REPO=$W/repo VERIF_BUILD=$W/build VERIF_REPLAYS=/verif/replays VERIF_EVID=$W/evidence
 for prop in "$@"; do
   echo "=== $prop with $(basename $(dirname $P))/$(basename $P)"
   ./run_check.py $prop --tier ${TIER:-quick} 2>&1 | grep -v "^building\|^build finished" | cut -c1-400 | tail -8
